@@ -939,8 +939,13 @@ func checkC14(c *Ctx, r *Report) {
 				if isField(st.Addr, "net/http", "Request", "Body") && mentionsFieldDeep(st.Val, "internal/adapter/translator", "PassthroughRequest", "Body", 6) {
 					body = true
 				}
-				if isField(st.Addr, "net/url", "URL", "Path") && mentionsField(st.Val, "internal/adapter/translator", "PassthroughRequest", "TargetPath", 3) {
-					path = true
+				// … exactly the prepared target: not a path some function chose with the prepared one among its inputs (a
+				// per-profile messages path picked from the first candidate is wrong for every other candidate)
+				if isField(st.Addr, "net/url", "URL", "Path") {
+					v := stripConv(boundValue(stripConv(throughHelper(stripConv(st.Val)))))
+					if ld, ok := v.(*ssa.UnOp); ok && isField(ld.X, "internal/adapter/translator", "PassthroughRequest", "TargetPath") {
+						path = true
+					}
 				}
 			}
 			if _, k, _, ok := headerCall(in, "Set"); ok {
@@ -1159,6 +1164,9 @@ func checkC14(c *Ctx, r *Report) {
 			Old: "	if !t.config.PassthroughEnabled {\n		return false\n	}\n\n	if len(endpoints) == 0 {", New: "	if len(endpoints) == 0 {"},
 		Mutant{Prop: "C14", Name: "fallback-after-passthrough", File: "internal/app/handlers/handler_translation.go", Rule: "C14-R2",
 			Old: "	a.recordTranslatorMetrics(trans, pr, constants.TranslatorModePassthrough, constants.FallbackReasonNone)\n	return true", New: "	a.recordTranslatorMetrics(trans, pr, constants.TranslatorModePassthrough, constants.FallbackReasonNone)\n	return !pr.hadError"},
+		Mutant{Prop: "C14", Name: "passthrough-path-chosen-from-the-client-path", File: "internal/app/handlers/handler_translation.go", Rule: "C14-R2",
+			Old: "	r.URL.Path = passthroughReq.TargetPath\n", New: "	r.URL.Path = passthroughPathFor(r.URL.Path, passthroughReq.TargetPath)\n",
+			Edits: []Edit{{"internal/app/handlers/handler_translation.go", "// executeTranslationRequest handles the translation path", "func passthroughPathFor(current, target string) string {\n	if len(current) > len(target) && current[len(current)-len(target):] == target {\n		return current[len(current)-len(target)-1:]\n	}\n	return target\n}\n\n// executeTranslationRequest handles the translation path"}}},
 		Mutant{Prop: "C14", Name: "passthrough-path-kept", File: "internal/app/handlers/handler_translation.go", Rule: "C14-R2",
 			Old: "	r.URL.Path = passthroughReq.TargetPath\n", New: ""},
 		Mutant{Prop: "C14", Name: "metrics-mode-swapped", File: "internal/app/handlers/handler_translation.go", Rule: "C14-R3",
